@@ -92,6 +92,18 @@ def generate(tier, seed):
                 for x in CORE[:4]:
                     for t in terms_for(x[1])[:7]:
                         items.append({'family': 'one-binder-exhaustive', 'formula': f, 'var': x, 'term': t})
+    # the same capture situations at every sort: the substituted variable, the binder and the variable of the term share a sort
+    for s_ in 'gis':
+        mk = {'g': gvar, 'i': ivar, 's': svar}[s_]
+        for q in ('forall', 'exists'):
+            for body in (atom('p', mk('X'), mk('Y')), conj(atom('p', mk('X'), mk('Y')), atom('q', mk('Y1'))), cmp(mk('X'), '!=', mk('Y')),
+                         neg(atom('p', mk('Y'), mk('X')))):
+                for bs in ([var('Y', s_)], [var('Y', s_), var('Y1', s_)], [var('Y1', s_), var('Y', s_)], [var('Y', s_), var('X', 'g' if s_ != 'g' else 'i')]):
+                    f = (q, tuple(bs), body)
+                    for t in (mk('Y'), mk('Y1'), mk('X')):
+                        items.append({'family': 'same-sort-capture', 'formula': f, 'var': ('X', s_), 'term': t})
+                    items.append({'family': 'same-sort-capture', 'formula': ('exists', (var('Z', s_),), conj(f, atom('q', mk('Z')))),
+                                  'var': ('X', s_), 'term': mk('Y')})
     # two binders in one block / nested blocks, adversarial names
     for q in ('forall', 'exists'):
         for b1, b2 in itertools.product(VARS[:6], VARS[:6]):
